@@ -45,6 +45,25 @@ def fold_loop(text, **_):
     return text, 0
 
 
+@R.rule('extend-filter-loop')
+def extend_filter_loop(text, **_):
+    """V.extend(W.into_iter().filter(|x| P))  ->  for x in W { if P { V.push(x); } }
+    std doc of `impl Extend<T> for Vec<T>` ("extends a collection with the contents of an iterator": every yielded element is pushed,
+    in order) and of Iterator::filter (the predicate is called once per element, in order; exactly the elements for which it returns
+    true are yielded). In the closure `x` is a `&T`, in the loop a `T`: the rule refuses (undecided) unless every use of `x` in P
+    is the method call `x.clone()`, which auto-derefs to the same `T::clone` in both forms."""
+    pat = re.compile(r'(\w+)\.extend\(\s*(\w+)\s*\.into_iter\(\)\s*\.filter\(\|(\w+)\| ([^;|]*?)\),?\s*\);', re.S)
+    m = pat.search(text)
+    if not m:
+        return text, 0
+    vec, src, x, pred = m.group(1), m.group(2), m.group(3), m.group(4).strip()
+    uses = re.findall(r'\b%s\b(\.clone\(\))?' % re.escape(x), pred)
+    if not uses or any(u == '' for u in uses):
+        raise R.Undecided('extend-filter-loop: the predicate uses `%s` other than as `%s.clone()`' % (x, x))
+    new = 'for %s in %s { if %s { %s.push(%s); } }' % (x, src, pred, vec, x)
+    return text[:m.start()] + new + text[m.end():], 1
+
+
 EXTRA_RULES = [
     ('fmt-join-dot', r'format!\("\{\}\.\{\}", (\w+), (\w+)\)', r'vx_join_dot(\1, \2)',
      'format!("{}.{}", A, B) (A, B strings) -> vx_join_dot(A, B), ensures r@ == A@ + "." + B@ (std::fmt: `{}` of a str/String writes its text)'),
@@ -57,12 +76,6 @@ EXTRA_RULES = [
     ('for-map-into-iter', r'for \((\w+), (\w+)\) in (overlay_map) \{', r'for (\1, \2) in \3.into_iter() {',
      'for (k, v) in M { B } (M: serde_json::Map by value) -> for (k, v) in M.into_iter() { B }: Rust reference, `for` evaluates '
      'IntoIterator::into_iter(M); the call is only made explicit so that the shim of Map::into_iter carries the contract'),
-    ('extend-filter-loop', r'(\w+)\.extend\(\s*(\w+)\s*\.into_iter\(\)\s*\.filter\(\|(\w+)\| ([^;|]*?)\),?\s*\);',
-     r'for \3 in \2 { if \4 { \1.push(\3); } }',
-     'V.extend(W.into_iter().filter(|x| P)) -> for x in W { if P { V.push(x); } }: std doc of Extend for Vec (appends every yielded '
-     'element in order) and of Iterator::filter (calls the predicate once per element, in order, yields those for which it is '
-     'true). In the closure `x` is a `&T` and in the loop a `T`; the only use of `x` in P is the method call `x.clone()`, which '
-     'auto-derefs to the same `T::clone` (the rule refuses any other P)', re.S),
     ('cloned-collect-set', r'(\w+)\.iter\(\)\.cloned\(\)\.collect\(\)', r'vx_cloned_set(\1)',
      'V.iter().cloned().collect() into a HashSet<Value> (V: Vec<Value>) -> vx_cloned_set(V): std doc of Iterator::cloned + FromIterator '
      'for HashSet: the set of (clones of) the elements of V'),
@@ -151,12 +164,12 @@ MERGE_VALUES = {
         (r'let mut seen', 'before', '''let ghost oa = overlay_array@; let ghost ba0 = jvs(base_array@);
             proof { lemma_jv_array(*base_array); lemma_jv_array(overlay_array); assert(b0 == JV::Array(ba0)); assert(o0 == JV::Array(jvs(oa)));
                 assert(jvs(oa).skip(0) =~= jvs(oa)); if oa.len() == 0 { assert(jvs(oa) =~= Seq::<JV>::empty()); } }'''),
-        (r'if seen\.insert\(item\.clone\(\)\) \{', 'before', '''let ghost idx = it2.index@; let ghost x = jv(item); let ghost cur = jvs(base_array@);
+        (r'if [^{}]*seen\.insert\(item\.clone\(\)\)[^{}]*\{', 'before', '''let ghost idx = it2.index@; let ghost x = jv(item); let ghost cur = jvs(base_array@);
                 proof { assert(item == oa[idx]); assert(jvs(oa)[idx] == x); lemma_append_step(cur, jvs(oa), idx); cur.to_set_ensures(); }'''),
         (r'base_array\.push\(item\);\s*\}', 'after', '''proof {
                     let now = jvs(base_array@);
-                    if cur.contains(x) { assert(now =~= cur); assert(seen@ =~= cur.to_set()); }
-                    else { assert(now =~= cur.push(x)); lemma_push_to_set(cur, x); }
+                    if cur.contains(x) { assert(now =~= cur); assert(seen@ =~= cur.to_set()); } /*@C32.arrays-append-without-duplicates.step*/
+                    else { assert(now =~= cur.push(x)); lemma_push_to_set(cur, x); } /*@C32.arrays-append-without-duplicates.step*/
                     if idx + 1 == oa.len() { assert(jvs(oa).skip(idx + 1) =~= Seq::<JV>::empty()); }
                 }'''),
         (r'base_array\.push\(item\);\s*\}\s*\}', 'after', 'proof { lemma_jv_array(*base_array); }'),
@@ -174,7 +187,9 @@ TO_EMMYRC_JSON = {
             r is Object /*@C31.flatten.result-is-object*/,
             // the result is the nested form of the flat map: a function of the map alone (lemma_tree_unique), whatever order the
             // hash map yields its entries in
-            flat_wf(config.config@) ==> tree_ok(jv(r), config.config@, Seq::empty()) /*@C32.flatten.order-independent*/''',
+            flat_wf(config.config@) ==> tree_ok(jv(r), config.config@, Seq::empty()) /*@C32.flatten.order-independent*/,
+            // ... and nothing else is: any two runs (any two iteration orders) return the same value
+            flat_wf(config.config@) ==> forall|t2: JV| tree_ok(t2, config.config@, Seq::empty()) ==> t2 == jv(r) /*@C32.flatten.result-determined-by-the-map*/''',
     'iter_names': {0: 'it'},
     'loops': {
         0: '''invariant
@@ -199,6 +214,46 @@ TO_EMMYRC_JSON = {
             lemma_split_unique(strs(keys@), k@);
             lemma_outer_step_q(config.config@, n0, t0, k@, jv(*v));
         }'''),
+        (r'emmyrc\s*\}\s*$', 'before', '''proof {
+        if flat_wf(config.config@) {
+            assert forall|t2: JV| tree_ok(t2, config.config@, Seq::empty()) implies t2 == jv(emmyrc) by {
+                lemma_tree_unique(t2, jv(emmyrc), config.config@, Seq::empty());
+            }
+        }
+    }'''),
+    ],
+}
+
+TAIL = {
+    'src': {'kind': 'slice', 'name': 'load_tail', 'in': {'file': LOADER, 'kind': 'fn', 'name': 'load_configs_raw'},
+            'from': r'if config_jsons\.is_empty\(\) \{', 'to': r'\}(?=\s*\}\s*\Z)',
+            'head': 'pub fn load_tail(config_jsons: Vec<Value>) -> Value', 'tail': ''},
+    'rules': ['drop-log', 'fold-loop'],
+    'attrs': '#[verifier::loop_isolation(false)]\n#[verifier::spinoff_prover]',
+    'ret': 'r',
+    'ensures': '''
+            // every list of parsed files gives a configuration object (no `requires`)
+            r is Object /*@C31.load.result-is-object*/,
+            // for files that the property speaks about (files_ok), the result is the nested form of: every setting with the value of the
+            // last file that sets it, whichever spelling each file uses; arrays: the later files' new elements appended
+            files_ok(jvs(config_jsons@)) ==> tree_ok(jv(r), later_wins(paths_seq(jvs(config_jsons@))), Seq::empty()) /*@C32.later-file-wins*/''',
+    'body_first': 'let ghost cj = config_jsons@; let ghost cjv = jvs(config_jsons@);',
+    'iter_names': {0: 'it'},
+    'loops': {0: '''invariant
+                    it.seq() == cj,
+                    files_ok(cjv) ==> tree_ok(jv(__accum), later_wins(paths_seq(cjv).take(it.index@)), Seq::empty())
+                        && flat_wf(later_wins(paths_seq(cjv).take(it.index@))) /*@C32.later-file-wins.inv*/,
+                    files_ok(cjv) && it.index@ == it.seq().len() ==> tree_ok(jv(__accum), later_wins(paths_seq(cjv)), Seq::empty())
+                        && flat_wf(later_wins(paths_seq(cjv))) /*@C32.later-file-wins.inv*/,'''},
+    'proof': [
+        (r'vx_log\(\);\s*Value::Object\(Default::default\(\)\)\s*\} else if', 'before', 'proof { lemma_tail_empty(cjv); }'),
+        (r'let flatten_config = FlattenConfigObject::parse\(first_config\);', 'before',
+         'proof { assert(jv(first_config) == cjv[0]); if files_ok(cjv) { lemma_tail_single(cjv); } }'),
+        (r'for item in config_jsons \{', 'before', 'proof { lemma_tail_init(cjv); if cj.len() == 0 { assert(paths_seq(cjv).take(0) =~= paths_seq(cjv)); } }'),
+        (r'let mut acc = __accum;', 'before', '''let ghost idx = it.index@; let ghost a0 = jv(__accum);
+                    proof { assert(item == cj[idx]); assert(jv(item) == cjv[idx]); if files_ok(cjv) { lemma_tail_step(cjv, idx, a0); } }'''),
+        (r'let flatten_config = FlattenConfigObject::parse\(merge_config\.clone\(\)\);', 'after',
+         'proof { if files_ok(cjv) { lemma_tail_final(cjv, jv(merge_config)); } }'),
     ],
 }
 
@@ -224,17 +279,57 @@ UNIT = {
         'flatten_object': FLATTEN_OBJECT,
         'to_emmyrc_json': TO_EMMYRC_JSON,
         'merge_values': MERGE_VALUES,
-        'load_configs_raw::tail': {
-            'src': {'kind': 'slice', 'name': 'load_tail', 'in': {'file': LOADER, 'kind': 'fn', 'name': 'load_configs_raw'},
-                    'from': r'if config_jsons\.is_empty\(\) \{', 'to': r'\}(?=\s*\}\s*\Z)',
-                    'head': 'pub fn load_tail(config_jsons: Vec<Value>) -> Value', 'tail': ''},
-            'rules': ['drop-log', 'fold-loop']},
+        'load_configs_raw::tail': TAIL,
     },
-    'allow': [r'external_body', r'uninterp spec fn'],
-    'min_obligations': 5,
-    'trusted': [],
-    'not_covered': [],
-    'samples': [],
+    'allow': [r'external_body', r'uninterp spec fn (view|je_key|je_old|je_fin|jiter_seq|jinto_seq|hmiter_seq)\b'],
+    'min_obligations': 50,
+    'trusted': [
+        'serde_json::Value: the real enum (Null/Bool/Number/String/Array(Vec<Value>)/Object(Map<String, Value>)) with its meaning `jv` (spec datatype JV); '
+        'serde_json::Number opaque; derived Clone of Value returns a value with the same meaning',
+        'serde_json::Map<String, Value> (shim JsonMap, external_body, view Map<Seq<char>, JV>), each with its serde_json-documented contract: '
+        'Default::default (empty), get, get_mut (&mut to the stored value; what it holds at the end of the borrow is stored; rest untouched), '
+        'insert, entry + Entry::or_insert (ghost model je_key/je_old/je_fin of the borrow, je_fin a prophecy like final()), '
+        'iter and into_iter (every entry exactly once; the ORDER is left unspecified although the BTreeMap-backed map iterates in key order: '
+        'nothing proved depends on it), Value::is_object, Value::as_object_mut',
+        'hashbrown::HashMap<String, Value> (shim HashMap, external_body, view Map<Seq<char>, JV>): new, insert, iter (every entry exactly once, '
+        'arbitrary order); String keys are compared by content',
+        'std::collections::HashSet<Value> (shim HashSet, external_body, view Set<JV>): new, insert ("returns whether the value was newly '
+        'inserted"); Eq/Hash of serde_json::Value are structural, i.e. two values are equal for the set iff they have the same meaning '
+        '(Number: equality of the opaque number)',
+        'the three iterator shims implement vstd IteratorSpecImpl with obeys_prophetic_iter_laws = true: `next` yields the elements of '
+        '`remaining` in order and then None (vstd contract of Iterator::next, assumed for the external_body `next`)',
+        'vx_join_dot (format!("{}.{}", a, b) of two strings = a + "." + b), vx_split_dot (str::split(\'.\').collect(): at least one part, '
+        'no part contains \'.\', parts joined by \'.\' give back the string), vx_cloned_set (v.iter().cloned().collect() = set of the '
+        'elements; used only by the repaired merge_values), vx_log (log::info!/error! of a literal has no effect)',
+        'rewrite rules of this unit (documented in unit.py): fold-loop, extend-filter-loop, for-map-into-iter, hashmap-ref-iter, '
+        'fmt-join-dot, split-dot-collect, to-owned-clone, cloned-collect-set, drop-log; catalogue rule is-some-and',
+        'vstd specs of String::clone, str::is_empty, str::to_string, Option::{expect, unwrap_or, unwrap_or_else}, Vec::{push, len, '
+        'is_empty, index, into_iter}, Vec IntoIter::next',
+        'the slice load_configs_raw::tail is wrapped as `fn load_tail(config_jsons: Vec<Value>) -> Value` (its only free variable)',
+        'PrefixArg::pfx: how flatten_object reads its `prefix` parameter ("" = top level of the file for a `&str` prefix, None for an '
+        '`Option<&str>` prefix): this is the contract the call in `parse` needs; the defect is that the recursive calls do not respect it',
+    ],
+    'not_covered': [
+        'the reading half of load_configs_raw (read_file_with_encoding, serde_json::from_str, load_lua_config, the partial_emmyrcs loop) and '
+        'load_configs (serde_json::from_value into Emmyrc, default on error): not under contract; C31 for malformed file CONTENT rests on '
+        'the bounded replay /verif/replay/c31 only',
+        'C32.later-file-wins is stated for files_ok lists: every file unambiguous (no setting spelled twice with different values inside one '
+        'file) and no setting strictly below another one (`"a": 1` here, `"a.b": 2` there; the property does not say which shape wins). '
+        'For other inputs only no-panic, the array clause, the order-independence of to_emmyrc_json and the contract of parse are proved; '
+        'in particular which of two spellings inside ONE file is kept is not specified (deterministic in reality: key order of the BTreeMap)',
+        'a top-level value that is not an object (`5`, `[]`) is treated as the single setting with the empty path (what the code does); '
+        'Lua configs: only their serde_json::Value',
+    ],
+    'samples': [
+        'to_emmyrc_json: for every flat map, `r is Object` and no `expect` fires; if all values are leaves, tree_ok(r, map, []) - and '
+        'lemma_tree_unique: that determines r, whatever order the hash map iterates in',
+        'flatten_object / parse: the flat map holds exactly the (dotted path -> leaf) pairs the JSON value denotes, where a key of an object '
+        'at any depth extends the path by "." + key (den); lemma_same_meaning_same_result: same meaning => same configuration',
+        'merge_values: Object x Object -> memberwise merge (recursively); Array x Array -> base ++ (elements of the later array not yet '
+        'present, in order); otherwise the later value',
+        'load_tail: files_ok(files) ==> tree_ok(result, later_wins(paths of the files), []); lemma_example_flat_then_nested: '
+        '[{"a.b": x}, {"a": {"b": y}}] loads to {"a": {"b": y}}',
+    ],
     'mutants': [
         {'name': 'no-slot-repair', 'item': 'to_emmyrc_json',
          'pattern': r'if !slot\.is_object\(\) \{\s*\*slot = Value::Object\(Default::default\(\)\);\s*\}', 'repl': '',
@@ -242,5 +337,23 @@ UNIT = {
         {'name': 'leaf-overwrites-object', 'item': 'to_emmyrc_json',
          'pattern': r'!map\.get\(key\)\.is_some_and\(\|old\| old\.is_object\(\)\)', 'repl': 'true',
          'expect': r'C32\.flatten\.(order-independent|cursor)'},
+        {'name': 'arrays-overwritten', 'item': 'merge_values',
+         'pattern': r'base_array\.extend\(', 'repl': 'base_array.clear(); base_array.extend(',
+         'expect': r'C32\.arrays-append-without-duplicates'},
+        {'name': 'arrays-no-dedup', 'item': 'merge_values',
+         'pattern': r'seen\.insert\(item\.clone\(\)\)', 'repl': '(seen.insert(item.clone()), true).1',
+         'expect': r'C32\.arrays-append-without-duplicates'},
+        {'name': 'object-new-member-dropped', 'item': 'merge_values',
+         'pattern': r'base_map\.insert\(key, overlay_value\);', 'repl': '',
+         'expect': r'C32\.merge\.objects-memberwise'},
+        {'name': 'scalar-earlier-wins', 'item': 'merge_values',
+         'pattern': r'\*base_slot = overlay_value;', 'repl': '',
+         'expect': r'C32\.merge\.later-value-wins'},
+        {'name': 'flat-key-joined-backwards', 'item': 'flatten_object',
+         'pattern': r'format!\("\{\}\.\{\}", prefix, k\)', 'repl': 'format!("{}.{}", k, prefix)',
+         'expect': r'C32\.flat-equals-nested'},
+        {'name': 'earlier-file-wins', 'item': 'load_configs_raw::tail',
+         'pattern': r'merge_values\(&mut acc, item\);\s*acc', 'repl': 'let mut item = item; merge_values(&mut item, acc); item',
+         'expect': r'C32\.later-file-wins'},
     ],
 }
